@@ -1,5 +1,45 @@
 import Driver.Common
-/-! Driver for C09 (stub: not built yet). -/
-def main (_args : List String) : IO UInt32 := do
-  IO.eprintln "C09: driver not implemented"
-  return 2
+import CoapVerif.Model.Lifecycle
+/-!
+Driver for C09.  `judge`: `case <transport> <op> <point> <cause> | ret R after N err K ; done D onclose A B ; panics P`.
+The call must have returned within the bound (virtual time) after the cause, the done signal must be complete and each
+on-close callback must have run exactly once, without panics.  `waits`: prints the generated blocking points and whether
+each one is covered (for the evidence).
+-/
+namespace Driver.C09
+open CoapVerif CoapVerif.Model.Lifecycle CoapVerif.Generated.BlockingWaits
+
+def boundNs : Int := 1000000   -- 1 ms of virtual time: nothing in the library may need a timer to notice cancellation / close
+
+def judgeLine (line : String) : String :=
+  match line.splitOn " | " with
+  | [inp, obs] =>
+    match words inp, words obs with
+    | ["case", _, _, _, _], ["ret", r, "after", n, "err", _, ";", "done", d, "onclose", a, b, ";", "panics", p] =>
+      match parseInt? n with
+      | some n =>
+        if r != "1" then "violates the call did not return after its context ended / the connection was closed"
+        else if n > boundNs then s!"violates the call returned only {n} ns after the cause (bound {boundNs} ns)"
+        else if p != "0" then "violates Close panicked"
+        else if d != "1" then "violates the done signal was not completed by Close"
+        else if a != "1" || b != "1" then s!"violates on-close callbacks ran {a} and {b} times instead of exactly once"
+        else "ok"
+      | none => "violates unparsable-observation"
+    | _, _ => s!"violates unparsable-observation"
+  | _ => "bad-op"
+
+end Driver.C09
+
+def main (args : List String) : IO UInt32 := do
+  let stdin ← IO.getStdin
+  let stdout ← IO.getStdout
+  match args with
+  | ["judge"] =>
+    Driver.forLines stdin fun l => stdout.putStrLn (Driver.C09.judgeLine l)
+    stdout.flush
+    return 0
+  | ["waits"] =>
+    for w in CoapVerif.Generated.BlockingWaits.waits do
+      stdout.putStrLn s!"{w.file} {w.fn} {w.kind} {w.cases} ok={CoapVerif.Model.Lifecycle.waitOK w}"
+    return 0
+  | _ => IO.eprintln "usage: drv_c09 judge|waits"; return 2
